@@ -5,7 +5,7 @@ CONSTANTS
   Kind = "nameaddr"
   Atoms <- AtomsKnown
   Prefix <- PfxAS
-  MaxLen = 10
+  MaxLen = 9
   Cfgs <- CfgsNA1
   Junk = 34
   EmitOn = TRUE
